@@ -4,7 +4,6 @@ import (
 	"bytes"
 	"encoding/hex"
 	"fmt"
-	"os"
 	"runtime"
 	"strings"
 	"sync"
@@ -31,9 +30,14 @@ type blkRef struct {
 
 func (r blkRef) get() blk { return variant(bases()[r.Fixture], r.Salt) }
 
+// genEBB: whether the 650 KiB epoch boundary block may be drawn. It is switched
+// off for connections whose protocol timeouts are scaled down to 300 ms (its
+// transfer through a 1-byte-read pipe alone can take longer than that).
+var genEBB = false
+
 func genRef(rt *rapid.T, label string) blkRef {
 	r := blkRef{Fixture: rapid.IntRange(0, nSmall()-1).Draw(rt, label+"_fixture")}
-	if os.Getenv("VERIF_TIER") == "thorough" && rapid.IntRange(0, 39).Draw(rt, label+"_ebb") == 0 {
+	if genEBB && rapid.IntRange(0, 39).Draw(rt, label+"_ebb") == 0 {
 		r.Fixture = nSmall() // the 650 KiB epoch boundary block: a MsgBlock spanning ~10 segments
 	}
 	if rapid.IntRange(0, 3).Draw(rt, label+"_variantp") > 0 {
@@ -278,7 +282,7 @@ func (l *bfLog) waitLen(n int, d time.Duration) []bfEvent {
 const (
 	c23ShortTimeout = 300 * time.Millisecond
 	c23HangBound    = 7 * time.Second  // > 20 x the scaled protocol timeouts
-	c23GoodBound    = 15 * time.Second // liveness bound for well-behaved servers (expected latency: milliseconds)
+	c23GoodBound    = 10 * time.Second // liveness bound for well-behaved servers (expected latency: milliseconds)
 )
 
 // hangs already paid for per known finding key (each costs c23HangBound of wall
@@ -291,12 +295,13 @@ var (
 func hangKey(shape string) string { return "getblock:" + shape + ":hang" }
 
 func TestC23(t *testing.T) {
+	limitShrinkTime()
 	rec := evi.New(t, "C23", evi.Exploration,
 		"sequences of 1..4 block-fetch requests on one real NtN connection against a scripted raw server: range requests answered by NoBlocks or StartBatch + 0..12 real blocks (fixtures of every era and salted variants with distinct header hashes) + BatchDone; single-block requests for the hash of a generated block (or a random hash) answered by one of {NoBlocks; StartBatch+BatchDone; +the requested block; +a different block; +2..4 blocks}; generated segment grouping, segment size, read chunking, yields, callback delays, decoded vs raw callback. Non-trivial: a range with >= 2 blocks or a single-block request whose answer contains a block. Distinct by (op kinds, shapes, served block identities, requested hash, grouping).")
 	defer rec.Finish()
 	rec.Assume(
 		"blake2b-256 (golang.org/x/crypto) over the header item located by the harness CBOR parser is the reference block hash",
-		"bounded liveness: a call that has not returned 7 s after the server finished its answer, with the client's batch-start and block timeouts scaled to 300 ms, is reported as a hang (goroutine dump attached); a well-behaved server is given 15 s",
+		"bounded liveness: a call that has not returned 7 s after the server finished its answer, with the client's batch-start and block timeouts scaled to 300 ms, is reported as a hang (goroutine dump attached); a well-behaved server is given 10 s",
 		"a misbehaving answer is always the last request on its connection: the client may answer misbehaviour by closing the connection",
 	)
 	maxKnownHangs := rec.Pick(1, 2)
@@ -319,12 +324,30 @@ func TestC23(t *testing.T) {
 			Raw:       rapid.Bool().Draw(rt, "raw"),
 			SkipValid: rapid.IntRange(0, 3).Draw(rt, "skipvalid") == 0,
 		}
-		pc, ps := genPlan(rt, "client"), genPlan(rt, "server")
-		cs.ClientPlan, cs.ServerPlan = planDesc(pc), planDesc(ps)
 		nops := rapid.IntRange(1, 4).Draw(rt, "nops")
-		for i := 0; i < nops; i++ {
-			cs.Ops = append(cs.Ops, genC23Op(rt, i, i == nops-1, allowBad))
+		// the last request first: whether it misbehaves decides the timeouts of
+		// the whole connection and with them whether the big EBB may be served
+		genEBB = false
+		last := genC23Op(rt, nops-1, true, allowBad)
+		genEBB = rec.Thorough() && !isBadShape(last)
+		for i := 0; i < nops-1; i++ {
+			cs.Ops = append(cs.Ops, genC23Op(rt, i, false, allowBad))
 		}
+		genEBB = false
+		cs.Ops = append(cs.Ops, last)
+		pc, ps := genPlan(rt, "client"), genPlan(rt, "server")
+		for _, op := range cs.Ops {
+			for _, r := range op.Serve {
+				if r.Fixture == nSmall() {
+					// a 650 KiB block through 1..9-byte reads would take seconds
+					// under load; keep the fragmentation coarse for these cases
+					pc = &rawpeer.SeqPlan{Chunks: []int{4096, 0, 1000}, Yields: []int{0, 1}}
+					ps = nil
+					rec.Class("case_with_ebb")
+				}
+			}
+		}
+		cs.ClientPlan, cs.ServerPlan = planDesc(pc), planDesc(ps)
 		runC23(rt, rec, cs, pc, ps)
 	})
 }
@@ -435,7 +458,9 @@ func runC23(rt tb, rec *evi.Recorder, cs c23Case, pc, ps rawpeer.Plan) {
 			}
 		}
 		if err := serveOp(s.peer, op); err != nil {
-			rt.Fatalf("harness: server write: %v", err)
+			// the client closed the connection while the answer was being
+			// written; the outcome of the call is judged below as usual
+			rec.Class("server_write_failed_connection_closed")
 		}
 		rec.Class(op.Kind + ":" + op.Shape)
 		desc = append(desc, opDesc(op))
